@@ -69,13 +69,14 @@ PROPS = {
                    'served is the last one posted; the per-chunk query cache (exact hit, prefix/suffix narrowing, insertion) '
                    'returns for every history of patterns exactly the chunk\'s items matching each pattern, for every pattern '
                    'family satisfying key-determinacy and narrowing-monotonicity (proved for fuzzy and exact terms); the '
-                   'Loop\'s merger cache answers every final request with a scan of its own snapshot, pattern and sort flag. '
-                   'The models are tied to /repo by running the same histories through the real Matcher (the Lean model of '
-                   'the merger cache must reproduce every published list, including transient stale hits while loading).',
+                   'Loop\'s merger cache answers every request, final or not, with a scan of its own snapshot, pattern and sort '
+                   'flag whenever two snapshots of one revision with the same count hold the same items (which C13 proves of '
+                   'the chunk list and the coordinator\'s revision rule). The models are tied to /repo by running the same '
+                   'histories (fuzzy and exact mode, with --tail, with reloads) through the real Matcher.',
         level_note='Partial: narrowing-monotonicity is proved per term under fixed case/normalisation flags, and checked per '
                    'case for mixed flags; reader/terminal/coordinator timing is sampled by the interactive driver, not '
-                   'enumerated. Observation (outside the property: input still arriving): after a reload a non-final request '
-                   'at exactly the old input size can be answered from the merger cache of a smaller prefix.',
+                   'enumerated. The stale merger-cache hit after a reload that an earlier version of the model reproduced '
+                   '(finding F32) is repaired in /repo and is now excluded by the theorem.',
         technique='Lean 4 proof (mailbox invariant, cache invariants by induction over histories) + model/implementation '
                   'correspondence on request histories',
     ),
@@ -111,14 +112,19 @@ PROPS = {
              'concurrently with the scan; searches through Matcher.Loop while a loader goroutine is pushing (snapshot counts '
              'are whatever the schedule produced; each published result is judged against the model filter of exactly that '
              'prefix, and the snapshot is re-read after the search); rank area: chunk-list scripts re-reading every snapshot '
-             'after later pushes and snapshots (with and without --tail). race: the same concurrent cases in a harness built '
-             'with -race',
+             'after later pushes and snapshots (with and without --tail). matcher histo: request histories with --tail '
+             '(Snapshot trims inside and across chunks; its changed result and the snapshot contents are compared with the '
+             'heap model; every request, final or not, must be answered with the filter of its own snapshot). race: the '
+             'same concurrent cases in a harness built with -race',
         trusted=['Go memory model / race detector for the race driver', 'sort.Sort', 'Go unicode tables',
                  'the schedules actually produced by the Go runtime (the theorems quantify over all traces of the model, the '
                  'runs sample schedules of the implementation)'],
         level_text='Lean 4 theorems over a heap model of the chunk list (cells shared between the live list and snapshots): a '
                    'snapshot taken at any reachable moment, with or without --tail, reads the same after every later history '
-                   'of pushes and snapshots; without --tail it holds exactly the items pushed before it, in order; reported '
+                   'of pushes and snapshots; without --tail it holds exactly the items pushed before it, in order, with --tail N '
+                   'exactly the last N items the list held; Snapshot reports changed if and only if the list holds other items '
+                   'afterwards; with the revision bumped on changed, two snapshots of one revision with equal counts hold the '
+                   'same items (the hypothesis under which the merger cache is proved transparent for every request); reported '
                    'counts equal sizes. Over a transition-system model of scan\'s cancellation protocol (workers, cancelled '
                    'flag, count channel, result channel, newer request observed after any count): along every trace a '
                    'returned result is the complete result of every slice and a cancelled scan returns nothing. The models '
